@@ -834,7 +834,27 @@ func evalActionAdd(node *ActionExpression, env *Environment) Object {
 		return addObj.Add(val)
 	}
 
-	return UNDEFINED
+	// ADD on a document path: add to the nested value, or create it
+	indexField, ok := node.Left.(*IndexExpression)
+	if ok {
+		obj := evalIndex(indexField, env)
+		if isError(obj) {
+			return obj
+		}
+
+		if isUndefined(obj) {
+			return evalAssignIndex(indexField, []int{}, val, env)
+		}
+
+		addObj, ok := obj.(AppendableObject)
+		if !ok {
+			return newError("an operand in the update expression has an incorrect data type")
+		}
+
+		return addObj.Add(val)
+	}
+
+	return newError("invalid ADD target: %s", node.String())
 }
 
 func evalActionDelete(node *ActionExpression, env *Environment) Object {
